@@ -51,6 +51,9 @@ def run(ctx):
     facts = ctx.facts
     ctx.undecided = ("what the loaded patterns match; the property's 64 flag combinations are covered because every syntactic path through the two "
                      "functions is enumerated with the flag value taken at each branch - the check is over paths, not over executions.")
+    ctx.rule("R12.5", "explicit entries keep the order given: explicit_ignore_files() and the collection of --ignore / --filter patterns pass the "
+                      "argument lists through order-preserving combinators only (no sort, dedup, hash container), because later patterns and files override earlier ones; "
+                      "global sources found through git's configuration are tagged Git so that --no-vcs-ignore removes them (table shared with C14 R14.4)")
     ctx.rule("R12.1", "independence: on every path through WatchexecFilterer::new (all values of the discovery flags) the explicit sources "
                       "--filter, --filter-file, --ignore, --exts, --fs-events reach the filterer unconditionally and --ignore-file entries reach it through "
                       "explicit_ignore_files() or dirs::ignores(); in dirs::ignores the explicit entries are appended after every flag-guarded filter, on every path")
@@ -203,5 +206,31 @@ def run(ctx):
         ctx.require(not bad, "R12.4", "pass-needs-all-stages", "an event passes only after the --fs-events stage and the path filterer were consulted", cf.loc(cf.line),
                     detail=repr(bad[0])[:300] if bad else "",
                     fail="the CLI filterer can pass an event without consulting --fs-events and the path filters (a shortcut that depends on which ignore sources are loaded)")
+    except Skip:
+        pass
+
+    # ---- R12.5
+    try:
+        from .c03 import UNORDERED
+        REORDER = UNORDERED + ("::sort", "sort_by", "dedup", "::reverse", "::rev", "BTreeSet", "BTreeMap", "swap_remove")
+        ef = ctx.anchor_fn("R12.5", "watchexec_cli::dirs::explicit_ignore_files")
+        wn2 = body_of(ctx, "R12.5", "watchexec_cli::filterer::WatchexecFilterer::new")
+        for fn_, what in ((ef, "--ignore-file list"), (wn2, "--ignore / --filter / --filter-file lists")):
+            bad = []
+            for g in [fn_] + facts.descendants(fn_):
+                ctx.saw_fn(g)
+                for _, t in g.calls():
+                    full = (t.callee.full or "") + " " + (t.callee.def_ or "")
+                    for u in REORDER:
+                        if u in full and not g.macro(t.mac):
+                            bad.append((u, strip_generics(t.callee.def_)))
+            ctx.require(not bad, "R12.5", "order-kept:" + fn_.def_.split("::")[-1], "the %s keeps the order given on the command line" % what, fn_.loc(fn_.line),
+                        detail=str(sorted(set(bad))[:4]),
+                        fail="the %s is passed through an order-changing operation (%s): which of two conflicting explicit entries wins then depends on "
+                             "their spelling, and differs between flag mixes that load them through different routes" % (what, sorted({b[1] for b in bad})))
+        src = [pathx.desc(nd["a"][0]).replace("^", "") for c, nd in thir.calls_in(thir.root(ef)) if strip_generics(c).endswith("slice::iter")]
+        ctx.require(src == ["args.filtering.ignore_files"], "R12.5", "explicit-source", "explicit_ignore_files() iterates args.filtering.ignore_files itself", ef.loc(ef.line), detail=str(src))
+        from . import c14 as _c14
+        _c14.env_table(ctx, "R12.5")
     except Skip:
         pass
